@@ -30,6 +30,20 @@ pub fn verif_seed() -> u64 {
     }
 }
 
+/// glibc keeps the stacks of finished threads in a cache and hands a cached stack of up to four
+/// times the requested size to the next thread: a world that asks for 64 KiB may then run on
+/// 256 KiB, depending on which runs the process executed before. That breaks both the small-stack
+/// experiments and replayability, so every process that executes runs is started with the cache
+/// switched off.
+pub fn no_stack_cache(cmd: &mut Command) -> &mut Command {
+    let t = "glibc.pthread.stack_cache_size=0";
+    match std::env::var("GLIBC_TUNABLES") {
+        Ok(v) if v.contains("glibc.pthread.stack_cache_size") => cmd,
+        Ok(v) if !v.is_empty() => cmd.env("GLIBC_TUNABLES", format!("{v}:{t}")),
+        _ => cmd.env("GLIBC_TUNABLES", t),
+    }
+}
+
 fn exe() -> PathBuf {
     std::env::current_exe().expect("current_exe")
 }
@@ -166,7 +180,7 @@ pub fn exec_child_with(prop: &str, sc: &serde_json::Value, scratch: &Path, relea
     if let Err(e) = std::fs::write(&f, serde_json::to_vec(sc).unwrap()) {
         return ChildOutcome::HarnessError(format!("write {f:?}: {e}"));
     }
-    let out = run_with_timeout(Command::new(exe_for(release)).arg("exec-one").arg(prop).arg(&f).stdin(Stdio::null()).stderr(Stdio::null()).stdout(Stdio::piped()), Duration::from_secs(60));
+    let out = run_with_timeout(no_stack_cache(&mut Command::new(exe_for(release))).arg("exec-one").arg(prop).arg(&f).stdin(Stdio::null()).stderr(Stdio::null()).stdout(Stdio::piped()), Duration::from_secs(60));
     let _ = std::fs::remove_file(&f);
     match out {
         Err(e) if e == "timeout" => ChildOutcome::Died("no-progress(killed by watchdog)".into()),
@@ -365,7 +379,7 @@ fn spawn_worker(prop: &str, tier: Tier, seed: u64, w: u64, nw: u64, total: u64, 
     let skip_s = skip.iter().map(|x| x.to_string()).collect::<Vec<_>>().join(",");
     let errf = std::fs::OpenOptions::new().create(true).append(true).open(dir.join(format!("stderr-{w}.log"))).expect("stderr file");
     let use_release = std::env::var_os("SIM_MIX_RELEASE").is_some() && w % 2 == 1 && release_exe().is_some();
-    Command::new(if use_release { release_exe().unwrap() } else { exe() })
+    no_stack_cache(&mut Command::new(if use_release { release_exe().unwrap() } else { exe() }))
         .arg("worker")
         .arg(prop)
         .arg(tier.name())
